@@ -57,6 +57,13 @@ impl MkLabel for String {
 
 /// Compares everything observable with the model.
 pub fn compare<T: MkLabel>(af: &AAFramework<T>, m: &SetModel, universe: u8, pid: &str) -> CheckResult {
+    match guard(|| compare_inner(af, m, universe, pid)) {
+        Ok(r) => r,
+        Err(p) => Err(Failure::new(format!("{}/panic-while-observing-the-framework", pid), p)),
+    }
+}
+
+fn compare_inner<T: MkLabel>(af: &AAFramework<T>, m: &SetModel, universe: u8, pid: &str) -> CheckResult {
     let fail = |what: &str, msg: String| Err(Failure::new(format!("{}/{}", pid, what), msg));
     if af.n_arguments() != m.live.len() {
         return fail("n_arguments", format!("{} vs model {}", af.n_arguments(), m.live.len()));
